@@ -9,7 +9,7 @@ ALLOWED_AXIOMS = {"Classical_Prop.classic", "ClassicalDedekindReals.sig_not_dec"
 PROPS = {"C01", "C02"}
 WEIGHTS = H.W_STORE
 MANIFEST = {
-    "text": "Coq theorems over the sequential broker model (Model/Broker.v: Database::add/update, Entry::diff/validate/apply, update_entries): for every finite history, what a reader sees for a signal is exactly the fold of the acknowledgements writers received (value and broker-assigned timestamp; NotAvailable when never written), a rejected batch element leaves value, timestamp and target untouched and the accepted elements of the same batch all take effect. The model is tied to the code on every run by executing generated histories (register / update batches with valid and invalid values, duplicates, target writes, reads, by several principals) against the real AuthorizedAccess API and diffing every result and a full state dump after each mutating operation; an acknowledgement-fold monitor written independently in Python judges the implementation's own trace.",
+    "text": "Coq theorems over the sequential broker model (Model/Broker.v: Database::add/update, Entry::diff/validate/apply, update_entries): for every finite history, what a reader sees for a signal is exactly the fold of the acknowledgements writers received (value and broker-assigned timestamp; NotAvailable when never written), a rejected batch element leaves value, timestamp and target untouched and the accepted elements of the same batch all take effect. The model is tied to the code on every run by executing generated histories (register / update batches with valid and invalid values, duplicates, target writes, reads, by several principals) against the real AuthorizedAccess API and diffing every result and a full state dump after each mutating operation; an acknowledgement-fold monitor written independently in Python judges the implementation's own trace. Also: the client streams (kuksa.val.v1 StreamedUpdate, sdv StreamDatapoints) on the databroker's own tonic server, one long-lived stream per principal, incl. a signal registered while the streams are open; theorems c01_v1_stream_is_core, c01_v1_stream_every_element, c01_v1_set_stream_same_core, c01_sdv_stream_is_update.",
     "note": "Trusted: Coq kernel (axiom-free for the history theorems; Flocq's stdlib axioms enter only through validate's float comparisons); extraction + OCaml driver (vm_compute cross-check); harness/src/fam_hist.rs; timestamp canonicalisation (a SystemTime is mapped to the operation during which it was taken). Modelled, not verified: HashMap iteration order (abstracted: outputs are sorted), the tonic handlers of the three gRPC services (thin translators onto update_entries; exercised by C15/C19's handler-level runs), query subscriptions.",
 }
 RULE = ("seeded histories of 8-40 operations (plus setup) over 3-6 registered signals of random data/change/entry "
